@@ -650,6 +650,6 @@ def coq_term(case, model_result):
         return None
     kind = toks[0][-1]
     ops = [t for t in toks[2][2:].split(";") if t]
-    lhs = "history_trace (mkHP addsub div bits mul pgr_pow pgr_gcd pgr_roots radix) (%s) [%s]" % (_ctor(kind, toks[1]), "; ".join(_op(o) for o in ops))
+    lhs = "history_trace (mkHP addsub div bits mul pgr_pow pgr_gcd pgr_roots radix iter serde byteio signs) (%s) [%s]" % (_ctor(kind, toks[1]), "; ".join(_op(o) for o in ops))
     rhs = "[" + "; ".join("Ret %s" % _obj(t) for t in model_result.split(" ")[1:]) + "]"
     return lhs, rhs
